@@ -213,8 +213,10 @@ impl NewCase {
                         "hang",
                         "new|no-progress",
                         format!(
-                            "[{engine}] `{argv}`: no exit within {} steps after every entropy response became a match",
-                            self.e2.as_ref().map(|e| e.generous_bound).unwrap_or(0)
+                            "[{engine}] `{argv}`: no exit within {} scheduling steps / {} further entropy requests after every entropy response became a match ({})",
+                            self.e2.as_ref().map(|e| e.generous_bound).unwrap_or(0),
+                            self.e2.as_ref().map(|e| e.generous_requests).unwrap_or(0),
+                            h.detail
                         ),
                     );
                 }
@@ -993,7 +995,8 @@ pub fn e2_params(rng: &mut Rng, workers: usize, plan_len: usize) -> E2Params {
     E2Params {
         sched: gen_sched(rng, workers, plan_len),
         max_steps: (200 + 40 * (plan_len + workers)) as u32,
-        generous_bound: (16 * (workers + 2)) as u32,
+        generous_bound: (64 * (workers + 2)) as u32,
+        generous_requests: (2 * (workers + 2)) as u32,
         lib_tasks: 0,
         lib_len: 0,
         lib_calls: 0,
